@@ -51,6 +51,17 @@
   every `doInvoke`.  Timers are unconstrained here (`timeout`, `writeTimeout`, `giveUp` may happen at
   any time they are armed); the timed refinement is `Model/Call.lean`.
 
+  * `AdapterProxy.doKeepAlive` (a tick of `autoKeepAlive`, or `checkStatus` when keep-alive-interval > 0):
+        if c.servantProxy.queueLen > ObjQueueMax { return }      -- a plain read; not modelled: the tick may be
+                                                                 -- admitted whatever the counter is (over-approximation,
+                                                                 -- the read races with doInvoke anyway)
+        IRequestId: c.servantProxy.genRequestID()                -- actions `kaCas`, `kaAdd`
+        atomic.AddInt32(&c.servantProxy.queueLen, 1)             -- action `kaTake p`
+        defer { atomic.AddInt32(&c.servantProxy.queueLen, -1) }  -- action `kaRelease p`
+        c.Send(msg.Req) …                                        -- (the one-way ping itself is not modelled)
+    Every way out after the increment runs the deferred decrement (`Consts.callKeepAliveSlotReleased`,
+    re-extracted): a tick in flight is an element of `kaHeld`.
+
   Not modelled (assumptions of checks/C08.json, C09.json): client filters; the push callback and the
   reconnect push (`onPush` replaces the transport client); the health counters (C15); `sendFailQueue`
   and re-sending (C11); panics inside `Recv` (recovered there).
@@ -227,6 +238,7 @@ structure State where
   calls : List Call
   table : List Entry
   queueLens : List Int         -- `s.queueLen` of every ServantProxy object (index = `Params.proxy`)
+  kaHeld : List Nat            -- keep-alive ticks between their `queueLen+1` and the deferred `queueLen-1` (their proxies)
   invokeNum : Int
   conns : List Conn
   rcvs : List Rcv
@@ -257,7 +269,7 @@ def qAdd (l : List Int) (p : Nat) (d : Int) : List Int := l.set p (qGet l p + d)
 def qPad (l : List Int) (p : Nat) : List Int := l ++ List.replicate (p + 1 - l.length) 0
 
 def init (cfg : Cfg) (ctr : Int) : State :=
-  { gen := ⟨ctr, []⟩, calls := [], table := [], queueLens := [], invokeNum := 0,
+  { gen := ⟨ctr, []⟩, calls := [], table := [], queueLens := [], kaHeld := [], invokeNum := 0,
     conns := List.replicate cfg.nAdp ⟨true, false, []⟩, rcvs := [], emitted := [] }
 
 inductive CallAct
@@ -275,6 +287,9 @@ inductive Action
   | giveUp (r : Nat)
   | drain (a : Nat)
   | connClose (a : Nat)
+  | kaCas | kaAdd                   -- `genRequestID` executed by a keep-alive tick (`doKeepAlive`)
+  | kaTake (p : Nat)                -- … its `atomic.AddInt32(&c.servantProxy.queueLen, 1)`
+  | kaRelease (p : Nat)             -- … its deferred `atomic.AddInt32(&c.servantProxy.queueLen, -1)`
   deriving DecidableEq, Repr
 
 def State.setCall (s : State) (i : Nat) (c : Call) : State := { s with calls := s.calls.set i c }
@@ -426,6 +441,16 @@ def step (cfg : Cfg) (s : State) : Action → Option State
     match s.conns[a]? with
     | some k => if k.locked then none else some (s.setConn a { k with closed := true })
     | none => none
+  | .kaCas => some { s with gen := s.gen.cas }
+  | .kaAdd => some { s with gen := s.gen.add }
+  | .kaTake p =>
+    if p < s.queueLens.length then
+      some { s with queueLens := qAdd s.queueLens p Consts.callQueueLenInc, kaHeld := p :: s.kaHeld }
+    else none
+  | .kaRelease p =>
+    if p ∈ s.kaHeld then
+      some { s with queueLens := qAdd s.queueLens p (-(Consts.callQueueLenInc : Int)), kaHeld := s.kaHeld.erase p }
+    else none
 
 /-- all schedules = all action lists -/
 def run (cfg : Cfg) (s : State) : List Action → Option State
